@@ -42,12 +42,12 @@ def cases(tier, seed):
     return out
 
 
-def _field(rng, n, nlat, nlon, lat, units):
+def _field(rng, n, nlat, nlon, lat, units, noise=1e-3):
     p = nlat * nlon
     r = min(n - 1, p, 8)
     s = 2.0 ** -np.arange(r) * 10  # gapped: unique modes
     M, _, _ = gen.low_rank(n, p, s, rng, cplx=False, perp_ones=True)
-    M = M * np.sqrt(n) + 1e-3 * rng.standard_normal((n, p)) + rng.standard_normal(p)
+    M = M * np.sqrt(n) + noise * rng.standard_normal((n, p)) + rng.standard_normal(p)
     A = M.reshape(n, nlat, nlon) * units[None, :, None]
     import xarray as xr
 
@@ -127,7 +127,7 @@ def run_sdims(case, obs):
     miss[int(rng.integers(0, nt)), nmem - 1] = True
 
     def field(nla, nlo, la):
-        X = _field(rng, n, nla, nlo, la, np.ones(nla))
+        X = _field(rng, n, nla, nlo, la, np.ones(nla), 0.3 if cls == "CCA" else 1e-3)
         A = X.values.reshape(nt, nmem, nla, nlo) + 3.0 * rng.standard_normal((1, nmem, 1, 1))  # member offsets: the means matter
         A[miss] = np.nan
         return xr.DataArray(A, dims=("time", "member", "lat", "lon"), coords={"time": np.arange(nt) * 2 + 5, "member": [f"m{j}" for j in range(nmem)], "lat": la, "lon": np.arange(nlo) * 20.0 + 1.0})
@@ -167,6 +167,11 @@ def run(case, obs):
     n = int(rng.integers(30, 50))
     nlat = int(rng.integers(6, 10))
     nlon = int(rng.integers(2, 5))
+    noise = 1e-3
+    if cls == "CCA":
+        # full whitening (alpha = 0) without PCA needs an invertible, well-conditioned covariance: many more samples
+        # than features and a noise floor well above round-off (the coupled modes stay separated by the shared signal)
+        n, noise = 4 * nlat * nlon + int(rng.integers(0, 10)), 0.3
     cut = int(rng.integers(2, nlat - 1))
     # latitudes strictly on one side of the equator, not sorted towards it: the band [cut:] never holds the latitude
     # of largest weight of the whole field
@@ -175,11 +180,11 @@ def run(case, obs):
     if st:
         units[:cut], units[cut:] = 1e4, 1e-4
     two = zoo.kind(cls) in ("cross", "cross_rot")
-    X = _field(rng, n, nlat, nlon, lat, units)
+    X = _field(rng, n, nlat, nlon, lat, units, noise)
     Xs = [X.isel(lat=slice(0, cut)), X.isel(lat=slice(cut, None))]
     data_j, data_s = [X], [Xs]
     if two:
-        Y = _field(rng, n, 4, 2, np.linspace(-50.0, 50.0, 4), np.ones(4))
+        Y = _field(rng, n, 4, 2, np.linspace(-50.0, 50.0, 4), np.ones(4), noise)
         # Y shares part of X's signal so that the coupled modes are well separated
         Y.values[:, 0, :] += 3 * X.values[:, :1, 0] / units[0]
         Y.values[:, 1, :] += 2 * X.values[:, -1:, 0] / units[-1]
